@@ -64,6 +64,17 @@ Definition conj_shape (e : expr) : bool := match e with EAnd l => forallb litera
 (* a disjunction of conjunctions of literals *)
 Definition dnf_shape (e : expr) : bool := match e with EOr l => forallb conj_shape l | _ => conj_shape e end.
 
+(* the same shapes as propositions (Proofs/NnfDnf_proofs.v shows that the Boolean tests above decide them) *)
+Inductive NNF : expr -> Prop :=
+| NNF_atom a : atomic a = true -> NNF a
+| NNF_neg a : atomic a = true -> NNF (ENot a)
+| NNF_and l : Forall NNF l -> NNF (EAnd l)
+| NNF_or l : Forall NNF l -> NNF (EOr l).
+
+Definition Literal (x : expr) : Prop := atomic x = true \/ exists a, x = ENot a /\ atomic a = true.
+Definition Conj (c : expr) : Prop := Literal c \/ exists l, c = EAnd l /\ Forall Literal l.
+Definition DNF (d : expr) : Prop := Conj d \/ exists l, d = EOr l /\ Forall Conj l.
+
 (* ------------------------------------------------------------------ Simplifier.walk_not / walk_and *)
 (* Simplifier.walk_not(_, [s]) *)
 Definition neg_of (s : expr) : expr :=
@@ -115,6 +126,8 @@ Definition simp_and (args : list expr) : expr :=
 Definition num_const (e : expr) : option Qc :=
   match e with EInt z => Some (zq z) | EReal q => Some q | _ => None end.
 
+Definition obj_const (e : expr) : option N := match e with EObj o => Some o | _ => None end.
+
 Definition simp_atom (e : expr) : expr :=
   match e with
   | ELe a b => match num_const a, num_const b with Some x, Some y => EBool (qc_leb x y) | _, _ => e end
@@ -123,8 +136,8 @@ Definition simp_atom (e : expr) : expr :=
       match num_const a, num_const b with
       | Some x, Some y => EBool (qc_eqb x y)
       | _, _ =>
-          match a, b with
-          | EObj x, EObj y => EBool (x =? y)%N
+          match obj_const a, obj_const b with
+          | Some x, Some y => EBool (x =? y)%N
           | _, _ => if expr_eqb a b then EBool true else e
           end
       end
